@@ -29,9 +29,9 @@ Enabled(c) == n < MaxDepth /\ c.op \in Ops /\ Pre(doc, aux, gh, c)
 
 Step(c) ==
     /\ Enabled(c)
-    /\ LET r == Impl(doc, c, dev)
+    /\ LET r == Impl(doc, c, dev, gh.ops)
            B == Aux(r.doc)
-           j == Judge(doc, aux, gh, c, r.res, r.doc, B)
+           j == Judge(doc, aux, gh, c, r.res, r.doc, B, ObserveM(doc, c, r.doc, B, dev))
        IN /\ doc' = r.doc
           /\ aux' = B
           /\ gh' = j.gh
@@ -54,6 +54,13 @@ Cands(op) ==
       [] op = "RemoveAnnot"  -> {[C EXCEPT !.id = id] : id \in AnnotIds(doc)}
       [] op = "DeletePages"  -> {[C EXCEPT !.nums = nums] : nums \in NumSeqs}
       [] op \in {"AddPageContents", "ChangePageContent"} -> {[C EXCEPT !.id = p, !.b = b] : p \in Pages_, b \in ByteStrings}
+      [] op = "AddToPageContent" -> {[C EXCEPT !.id = p, !.ops = <<TokSave, TokRestore>>] : p \in Pages_}
+      [] op = "InsertImage"      -> {[C EXCEPT !.id = p, !.nums = <<2, 3, 4, 5>>,
+                                               !.o = StreamO([Type |-> NameO("XObject"), Subtype |-> NameO("Image")], <<1, 2>>, FALSE)]
+                                     : p \in Pages_}
+      [] op = "InsertFormObject" -> {[C EXCEPT !.id = p,
+                                               !.o = StreamO([Type |-> NameO("XObject"), Subtype |-> NameO("Form")], <<90, 10>>, FALSE)]
+                                     : p \in Pages_}
       [] op = "ChangeContentStream" -> {[C EXCEPT !.id = id, !.b = b] : id \in Streams(doc), b \in ByteStrings}
       [] op = "GetOrCreateResources" -> {[C EXCEPT !.id = p] : p \in Pages_}
       [] op = "AddXObject"   -> {[C EXCEPT !.id = p, !.name = "X1", !.x = MaxOf(Streams(doc))] : p \in Pages_}
@@ -82,10 +89,14 @@ GetOrCreateResources == Do("GetOrCreateResources")
 AddXObject           == Do("AddXObject")
 AddGraphicsState     == Do("AddGraphicsState")
 BuildOutline         == Do("BuildOutline")
+AddToPageContent     == Do("AddToPageContent")
+InsertImage          == Do("InsertImage")
+InsertFormObject     == Do("InsertFormObject")
 Save                 == Do("Save")
 SaveLoad             == Do("SaveLoad")
 
 AllOps == {"NewObjectId", "AddObject", "Replace", "DeleteObject", "RemoveAnnot", "Prune", "DeletePages", "Renumber",
            "Compress", "Decompress", "AddPageContents", "ChangePageContent", "ChangeContentStream",
-           "GetOrCreateResources", "AddXObject", "AddGraphicsState", "BuildOutline", "Save", "SaveLoad"}
+           "GetOrCreateResources", "AddXObject", "AddGraphicsState", "BuildOutline", "Save", "SaveLoad",
+           "AddToPageContent", "InsertImage", "InsertFormObject"}
 =============================================================================
